@@ -52,6 +52,9 @@ def targets(ctx):
     import betterproto
 
     c = corpus()
+    from . import _poison
+
+    _poison_fn = lambda: _poison.apply(c)  # noqa: E731
     c310 = corpus(opts=("typing.310",))  # the same corpus generated with PEP 604 / builtin-generic annotations
     schema = c.schema
     CAS = {"camel": betterproto.Casing.CAMEL, "snake": betterproto.Casing.SNAKE}
@@ -144,4 +147,4 @@ def targets(ctx):
 
     from . import _seq
 
-    return [Target("corpus_values_json", ev, strategy=strat(), quick=700, thorough=8000, time_quick=70), _seq.target("C04")]
+    return [Target("corpus_values_json", ev, poison=_poison_fn, strategy=strat(), quick=700, thorough=8000, time_quick=70), _seq.target("C04")]
